@@ -27,6 +27,7 @@
 #include <amgcl/relaxation/ilup.hpp>
 #include <amgcl/relaxation/ilut.hpp>
 #include <amgcl/relaxation/as_preconditioner.hpp>
+#include <amgcl/adapter/crs_tuple.hpp>
 #include <omp.h>
 #include <functional>
 
@@ -65,7 +66,7 @@ template <class V> dvec int_vec(vr::rng &g, size_t n, int vmax) {
 }
 
 // three public entry points of a smoother + as_preconditioner
-template <class V> struct sweeps { dvec pre, post, app, aspre; ld e_aspre; bool finite; };
+template <class V> struct sweeps { dvec pre, post, app, aspre, asu; ld e_aspre; bool finite; bool asu_exc = false; std::string asu_what; };
 template <class V, class R>
 sweeps<V> run_sweeps(const R &S, const typename T<V>::M &A, const dvec &f, const dvec &x0) {
     typedef typename T<V>::vec vec;
@@ -88,6 +89,28 @@ void run_aspre(sweeps<V> &o, const typename T<V>::M &A, const P &prm, const dvec
     // a second smoother object built from a copy of the matrix: the same operator (to rounding: the
     // power-method bound of chebyshev sums its start vector in thread-arrival order)
     o.e_aspre = vd::all_finite(o.aspre) ? vd::rel_diff(o.aspre, o.app) : 1e30L;
+    // the same matrix handed over as a generic (tuple) matrix whose CRS rows are NOT sorted by column - the order
+    // inside a row is not part of the matrix: row i % 3 = 0 diagonal first, 1 descending, 2 rotated by one
+    {
+        size_t n = A.nrows; std::vector<ptrdiff_t> ptr(A.ptr, A.ptr + n + 1), col(A.ptr[n]); std::vector<V> val(A.ptr[n]);
+        for (size_t i = 0; i < n; ++i) {
+            ptrdiff_t b = A.ptr[i], e = A.ptr[i + 1], w = e - b; std::vector<ptrdiff_t> ord(w);
+            for (ptrdiff_t k = 0; k < w; ++k) ord[k] = (i % 3 == 1) ? b + w - 1 - k : (i % 3 == 2) ? b + (k + 1) % w : b + k;
+            if (i % 3 == 0) for (ptrdiff_t k = 0; k < w; ++k) if (A.col[ord[k]] == (ptrdiff_t)i) { std::swap(ord[0], ord[k]); break; }
+            for (ptrdiff_t k = 0; k < w; ++k) { col[b + k] = A.col[ord[k]]; val[b + k] = A.val[ord[k]]; }
+        }
+        o.asu.assign(f.size(), cld(0, 0));
+        try {
+            AP apu(std::tie(n, ptr, col, val), prm);
+            dvec junk2(f.size(), cld(3, -4)); auto Xu = mkvec<V>(junk2);
+            apu.apply(*F, *Xu);
+            o.asu = undense<V>(*Xu);
+        } catch (const std::exception &ex) { o.asu_exc = true; o.asu_what = ex.what(); }
+    }
+}
+template <class V> static ld asu_err(const sweeps<V> &s, const dvec &want, ld m) {
+    if (s.asu_exc || !vd::all_finite(s.asu)) return 1e30L;
+    return vd::nrm_inf(vd::sub(s.asu, want)) / std::max(std::max((ld)1, vd::nrm_inf(want)), m);
 }
 // bitwise fixed point: f = A xs evaluated exactly (integers), one pre and one post sweep from xs
 template <class V, class R> int fixed_point(const R &S, const typename T<V>::M &A, const dvec &xs, dvec &outpre, dvec &outpost, ld &err) {
@@ -159,6 +182,8 @@ template <class V> static void sweep_fields(rec &R, const caseinfo &ci, const sw
     R.o.b("finite", s.finite).i("e_aspre", md(s.e_aspre));
     auto rd = [](const dvec &got, const dvec &want, ld m) { return vd::nrm_inf(vd::sub(got, want)) / std::max(std::max((ld)1, vd::nrm_inf(want)), m); };
     R.o.i("e_pre", md(rd(s.pre, dpre, mag))).i("e_post", md(rd(s.post, dpost, mag))).i("e_app", md(rd(s.app, dapp, magapp)));
+    // as_preconditioner on the unsorted copy: against the definition (which does not know about storage order)
+    R.vecs("asu", s.asu, ci.rat); R.o.i("e_asu", md(asu_err<V>(s, dapp, magapp))).b("asu_exc", s.asu_exc);
 }
 template <class V, class Rx> static void fix_fields(rec &R, const Rx &S, const typename T<V>::M &A, const dvec &xs, bool expect_bitwise) {
     dvec fp, fq; ld err; int bad = fixed_point<V>(S, A, xs, fp, fq, err);
@@ -281,6 +306,7 @@ template <class V> static void c_cheb(const typename T<V>::M &A, const caseinfo 
     // x-space references are not needed: the three sweeps are judged through their residual polynomial
     R.vecs("pre", s.pre, ci.rat); R.vecs("post", s.post, ci.rat); R.vecs("app", s.app, ci.rat);
     R.o.b("finite", s.finite).i("e_aspre", md(s.e_aspre)).i("e_pre", md(e1)).i("e_post", md(e2)).i("e_app", md(e3)).i("e_def", md(ebnd));
+    R.vecs("asu", s.asu, ci.rat); R.o.i("e_asu", md((s.asu_exc || !vd::all_finite(s.asu)) ? (ld)1e30L : perr(s.asu, resid(zero)))).b("asu_exc", s.asu_exc);
     { std::vector<double> dc(2); dc[0] = (double)d; dc[1] = (double)c; if (ci.rat) R.o.raw("dc", vd::fix_list(dc, SH, R.big)); else R.o.raw("dc", "[]"); }
     fix_fields<V>(R, S, A, xs, true);
     R.o.b("big", R.big); put(R.o);
